@@ -41,6 +41,7 @@ FILTER = "chess::Game::get_moves"
 def run(ctx):
     F = ctx.facts
     D = discr_map(F)
+    _HELPERS[0] = hir.table_helpers(F)
     g12(ctx, F, D)
     g3(ctx, F, D)
     g4(ctx, F, D)
@@ -317,10 +318,13 @@ def pushes_of(fn, F):
     return out, sym
 
 
+_HELPERS = [None]
+
+
 def fold_owner(t, owner, D):
     a = {("field", ("var", "self"), "owner"): ("variant", PL + owner),
          ("field", ("var", "game"), "current_player"): ("variant", PL + owner)}
-    return hir.canon(hir.fold(t, a, D))
+    return hir.canon(hir.fold(t, a, D, helpers=_HELPERS[0]))
 
 
 def atoms(guards, owner, D):
@@ -468,7 +472,7 @@ def g7(ctx, F, D):
     if ok:
         n, mv, guards = steps[0]
         at = set(atoms(guards, "White", D))
-        other = "Game::get_king_position(game, Player::the_other(Player::White))"
+        other = "Game::get_king_position(game, Player::Black)"
         want_adj = "NOT ((<impl i8>::abs((Position::col(new_pos) - Position::col(%s))) <= 1) && (<impl i8>::abs((Position::row(new_pos) - Position::row(%s))) <= 1))" % (other, other)
         want = {"FOR [(0, 1), (0, -1), (1, 0), (-1, 0), (1, 1), (1, -1), (-1, 1), (-1, -1)]",
                 "let(v1::Some, Position::add(pos, delta), new_pos())",
